@@ -182,7 +182,7 @@ def wrap (escaped : Bool) : Res Bytes SliceRead → Res Reference SliceRead
     exactly when the machine met no backslash; an error carries the same code at the same index -/
 def LoopOK (bs : Bytes) (result : SliceRead → Bytes → Res Bytes SliceRead) (res : Res Reference SliceRead) : StrRes → Prop
   | .closed st' j rest => ∃ r', A bs r' rest j false ∧ res = wrap st'.escaped (result r' st'.out.reverse)
-  | .err c j => ∃ r', res = .err c r' ∧ pos r' = j
+  | .err c j => ∃ r' xs', res = .err c r' ∧ A bs r' xs' j false
 
 theorem parseStrLoop_validate (bs : Bytes) (env : Env) (henv : env.tgt = .value) (stk : List Frame)
     (result : SliceRead → Bytes → Res Bytes SliceRead) :
@@ -243,7 +243,7 @@ theorem parseStrLoop_validate (bs : Bytes) (env : Env) (henv : env.tgt = .value)
           have hag := parseEscape_validate (lawful bs) env stk henv f hA1
             { st with out := ys.reverse ++ st.out, esc := .bs, escaped := true } rfl
           rw [hsub]
-          rcases hag with ⟨sc, r', xs', k', e2, hA', hl', hne', hrun'⟩ | ⟨c, r', e2, hrun'⟩
+          rcases hag with ⟨sc, r', xs', k', e2, hA', hl', hne', hrun'⟩ | ⟨c, r', xs', j', e2, hA', hrun'⟩
           · simp only at e2
             simp only [e2, hrun']
             have hr' := hA'.eq; subst hr'
@@ -257,22 +257,22 @@ theorem parseStrLoop_validate (bs : Bytes) (env : Env) (henv : env.tgt = .value)
             simpa using this
           · simp only at e2
             simp only [e2, hrun', LoopOK]
-            exact ⟨r', rfl, rfl⟩
+            exact ⟨r', _, rfl, hA'⟩
         · have hb' : (ch == 0x5c) = false := by simpa using hb
           simp only [hb', Bool.false_eq_true, if_false]
           have hc : ch < 0x20 := by simpa [hq', hb'] using hch
           rw [strRun_ctrl env stk { st with out := ys.reverse ++ st.out } hst e ch rest hq hb hc]
-          exact ⟨⟨bs, e + 1⟩, rfl, rfl⟩
+          exact ⟨⟨bs, e + 1⟩, _, rfl, A.mk' bs (e + 1) hlt⟩
     · have hee : e = bs.length := by omega
       subst hee
       simp only [beq_self_eq_true, if_true, List.drop_length, strRun_nil]
-      exact ⟨⟨bs, bs.length⟩, rfl, rfl⟩
+      exact ⟨⟨bs, bs.length⟩, _, rfl, A.mk' bs bs.length (Nat.le_refl _)⟩
 
 /-! ## `SliceRead::ignore_str` against the machine (skipped content) -/
 
 def LoopOKI (bs : Bytes) (res : Res Unit SliceRead) : StrRes → Prop
   | .closed _ j rest => ∃ r', A bs r' rest j false ∧ res = .ok () r'
-  | .err c j => ∃ r', res = .err c r' ∧ pos r' = j
+  | .err c j => ∃ r' xs', res = .err c r' ∧ A bs r' xs' j false
 
 theorem ignoreStrLoop_spec (bs : Bytes) (env : Env) (henv : env.tgt = .ignored) (stk : List Frame) :
     ∀ (fuel k : Nat) (st : StrSt), k ≤ bs.length → st.esc = .none → bs.length - k < fuel →
@@ -314,7 +314,7 @@ theorem ignoreStrLoop_spec (bs : Bytes) (env : Env) (henv : env.tgt = .ignored) 
           have hA1 : A bs ⟨bs, e + 1⟩ rest (e + 1) false := ⟨rfl, rfl, hlt, hrest.symm, rfl⟩
           have hag := ignoreEscape_spec (lawful bs) env stk henv hA1
             { st with out := ys.reverse ++ st.out, esc := .bs, escaped := true } rfl
-          rcases hag with ⟨r', xs', k', st', e2, hA', hl', hst', hrun'⟩ | ⟨c, r', e2, hrun'⟩
+          rcases hag with ⟨r', xs', k', st', e2, hA', hl', hst', hrun'⟩ | ⟨c, r', xs', j', e2, hA', hrun'⟩
           · simp only [e2, hrun']
             have hr' := hA'.eq; subst hr'
             obtain ⟨_, _, hk', hx', _⟩ := hA'
@@ -324,15 +324,15 @@ theorem ignoreStrLoop_spec (bs : Bytes) (env : Env) (henv : env.tgt = .ignored) 
             rw [h1, h2] at hl'
             exact ih k' st' hk' hst' (by omega)
           · simp only [e2, hrun', LoopOKI]
-            exact ⟨r', rfl, rfl⟩
+            exact ⟨r', _, rfl, hA'⟩
         · have hb' : (ch == 0x5c) = false := by simpa using hb
           simp only [hb', Bool.false_eq_true, if_false]
           have hc : ch < 0x20 := by simpa [hq', hb'] using hch
           rw [strRun_ctrl env stk { st with out := ys.reverse ++ st.out } hst e ch rest hq hb hc]
-          exact ⟨⟨bs, e + 1⟩, rfl, rfl⟩
+          exact ⟨⟨bs, e + 1⟩, _, rfl, A.mk' bs (e + 1) hlt⟩
     · have hee : e = bs.length := by omega
       subst hee
       simp only [beq_self_eq_true, if_true, List.drop_length, strRun_nil]
-      exact ⟨⟨bs, bs.length⟩, rfl, rfl⟩
+      exact ⟨⟨bs, bs.length⟩, _, rfl, A.mk' bs bs.length (Nat.le_refl _)⟩
 
 end SJ.Proofs.ReadSlice
